@@ -258,7 +258,7 @@ pub fn gen_string(rng: &mut Rng) -> String {
                 s.push('\n');
             }
             for _ in 0..n {
-                s.push(*rng.pick(b"abc xyz\n\n'\"-[=") as char);
+                s.push(*rng.pick(b"abc xyz\n\n'\"-[=]") as char);
             }
             s
         }
